@@ -846,6 +846,7 @@ impl Decl {
         }
         if self.has(Tr::Deserialize) {
             w!(o, "    de: vlib::g_de!(),");
+            w!(o, "    de_in_place: vlib::g_de_in_place!(),");
             w!(o, "    de_ref: Some(|f: Fmt, p: Pos, b: &[u8]| vlib::glue::de_any::<RefNt, II>(f, p, b, |r| r.0)),");
             if self.has(Tr::Ord) {
                 w!(o, "    de_key: vlib::g_de_key!(),");
